@@ -148,7 +148,9 @@ def _exh_chunk(args):
 
 WORDS = ["weights", "gel", "edges", "nodes", "meta", "version_etag", "user.name", "a.b.c", "", "x", "é", "k" * 40, "0", "null",
          # characters that str.splitlines() / text-mode readers treat as line ends, and other code points a JSON text may carry raw
-         "a\u2028b", "\u2029", "x\x85y", "v\x0bt", "f\x0cf", "\x1c\x1d\x1e", "cr\rlf\n", "tab\t", "\u00a0", "中→文", "\U0001f600", "q\"uote", "back\\slash", "\x00nul", "\ufeffbom"]
+         "a\u2028b", "\u2029", "x\x85y", "v\x0bt", "f\x0cf", "\x1c\x1d\x1e", "cr\rlf\n", "tab\t", "\u00a0", "中→文", "\U0001f600", "q\"uote", "back\\slash", "\x00nul", "\ufeffbom",
+         # spellings that Unicode normalisation / case folding would merge with one another (they are different keys)
+         "e\u0301", "\u00e9", "\u212b", "\u00c5", "A\u030a", "\ufb01", "fi", "\u1e9b\u0323", "\u00df", "ss", "SS", "\u0130", "i\u0307", "K", "\u212a", " x", "x ", "X"]
 STRS = ["s", "", "line\u2028sep", "para\u2029sep", "nel\x85", "vt\x0bff\x0c", "fs\x1c", "crlf\r\n", "中→", "\U0001f600", "\x00", "\ufeff"]
 
 
